@@ -124,6 +124,34 @@ def ref_lookup(ex, recs, soa_min, qrel, qtype_num):
     return terminal(at(cur, False), len(cur) > 0, list(cur))
 
 
+def check_against_ref(ex, w, zr, ref, qrel, apex_labels, eff):
+    """compare a ZoneResult with the reference verdict; eff(rec) = the TTL the zone should report for rec"""
+    kind = vname(w, zr)
+    desc = f'{kind} vs reference {ref[0]}'
+    def rr_matches(rr, rec, owner):
+        return z_and(labels_eq(name_labels(w, fld(w, rr, 'name')), owner), seq(ex, fld(w, rr, 'rtype_with_data'), rec.rdata),
+                     int_eq(fld(w, rr, 'ttl'), eff(rec)), vname(w, fld(w, rr, 'rclass')) == 'IN')
+    def same_set(rrs, want, owner):
+        ex.require(len(rrs) == len(want), 'lookup-records', f'{desc}: {len(rrs)} records returned, reference has {len(want)}')
+        for c in rrs:
+            ex.require(z_or(*[rr_matches(c.v, x, owner) for x in want]), 'lookup-records', f'{desc}: a returned record is not one the zone holds for this owner/type/ttl')
+        for x in want:
+            ex.require(z_or(*[rr_matches(c.v, x, owner) for c in rrs]), 'lookup-records', f'{desc}: a record the zone holds is missing from the result')
+    full = lambda rel: rel + [[Int(b, 'u8') for b in l] for l in apex_labels] + [[]]
+    if ref[0] == 'nameerror':
+        ex.require(kind == 'NameError', 'lookup-kind', desc)
+    elif ref[0] == 'answer':
+        ex.require(kind == 'Answer', 'lookup-kind', desc + (' (apex)' if not qrel else ''))
+        same_set(fld(w, zr, 'rrs').items, ref[1], full(qrel))
+    elif ref[0] == 'cname':
+        ex.require(kind == 'CNAME', 'lookup-kind', desc)
+        ex.require(rr_matches(fld(w, zr, 'rr'), ref[1], full(qrel)), 'lookup-records', f'{desc}: CNAME record differs')
+        ex.require(seq(ex, fld(w, zr, 'cname'), fld(w, ref[1].rdata, 'cname')), 'lookup-records', 'CNAME target differs')
+    else:
+        ex.require(kind == 'Delegation', 'lookup-kind', desc)
+        same_set(fld(w, zr, 'ns_rrs').items, ref[2], full(ref[1]))
+
+
 class ZoneLookup(Harness):
     nrec = 2; maxdepth = 2; qdepth = 2; types = ('A', 'NS', 'CNAME', 'TXT'); apexes = (0, 1)
 
@@ -155,32 +183,10 @@ class ZoneLookup(Harness):
         zr = r.fields[0].v
         kind = vname(w, zr)
         ref = ref_lookup(ex, recs, soa_min, qrel, qn)
-        desc = f'{kind} vs reference {ref[0]}'
         def eff(rec):
             if soa_min is None: return rec.ttl
             return Int(z3.If(z3.UGT(soa_min.z(), rec.ttl.z()), soa_min.z(), rec.ttl.z()), 'u32')
-        def rr_matches(rr, rec, owner):
-            return z_and(labels_eq(name_labels(w, fld(w, rr, 'name')), owner), seq(ex, fld(w, rr, 'rtype_with_data'), rec.rdata),
-                         int_eq(fld(w, rr, 'ttl'), eff(rec)), vname(w, fld(w, rr, 'rclass')) == 'IN')
-        def same_set(rrs, want, owner):
-            ex.require(len(rrs) == len(want), 'lookup-records', f'{desc}: {len(rrs)} records returned, reference has {len(want)}')
-            for c in rrs:
-                ex.require(z_or(*[rr_matches(c.v, x, owner) for x in want]), 'lookup-records', f'{desc}: a returned record is not one the zone holds for this owner/type/ttl')
-            for x in want:
-                ex.require(z_or(*[rr_matches(c.v, x, owner) for c in rrs]), 'lookup-records', f'{desc}: a record the zone holds is missing from the result')
-        full = lambda rel: rel + [[Int(b, 'u8') for b in l] for l in apex_labels] + [[]]
-        if ref[0] == 'nameerror':
-            ex.require(kind == 'NameError', 'lookup-kind', desc)
-        elif ref[0] == 'answer':
-            ex.require(kind == 'Answer', 'lookup-kind', desc + (' (apex)' if not qrel else ''))
-            same_set(fld(w, zr, 'rrs').items, ref[1], full(qrel))
-        elif ref[0] == 'cname':
-            ex.require(kind == 'CNAME', 'lookup-kind', desc)
-            ex.require(rr_matches(fld(w, zr, 'rr'), ref[1], full(qrel)), 'lookup-records', f'{desc}: CNAME record differs')
-            ex.require(seq(ex, fld(w, zr, 'cname'), fld(w, ref[1].rdata, 'cname')), 'lookup-records', 'CNAME target differs')
-        else:
-            ex.require(kind == 'Delegation', 'lookup-kind', desc)
-            same_set(fld(w, zr, 'ns_rrs').items, ref[2], full(ref[1]))
+        check_against_ref(ex, w, zr, ref, qrel, apex_labels, eff)
         cls = ref[0] + ('-wild' if ref[-1] == 'wild' else '') + ('-apex' if not qrel else '')
         return {'cls': cls, 'sample': self.describe(ex.get_model(), apex_labels)}
 
